@@ -383,6 +383,7 @@ def pairs():
             for kind in ('any', 'other', 'local', 'tns', 'ext'):
                 out.append((b, S.replace_wildcards(plain, kind), "wildcard-to-%s" % kind))
         # a different element in place of the first one (should never be accepted unless emptiable tricks)
+        out.append((b, Sq(), "empty-derived"))          # an empty content model: a restriction only of an emptiable base
         out.append((b, Sq(E('c')), "foreign-element"))
         out.append((b, Sq(E('a'), E('a')), "repeated-element"))
     return out
